@@ -124,7 +124,12 @@ fn sieve_all(out: &mut Out, rng: &mut StdRng, case: &str, s: &mut Sieve, r1: &[u
     let nb = s.nblocks;
     // primes >= 2^18 with their roots (for the vlarge focus)
     let vl: Vec<(u64, u64, u64)> = if plan.vlarge_focus {
-        (0..s.fbase.len()).filter(|&i| s.fbase.p(i) >= 1 << 18).map(|i| (s.fbase.p(i) as u64, r1[i] as u64, r2[i] as u64)).collect()
+        // (for bases above 2^16 primes: the primes whose index does not fit 16 bits)
+        let big = s.fbase.len() > 65536;
+        (0..s.fbase.len())
+            .filter(|&i| if big { i >= 65536 } else { s.fbase.p(i) >= 1 << 18 })
+            .map(|i| (s.fbase.p(i) as u64, r1[i] as u64, r2[i] as u64))
+            .collect()
     } else {
         vec![]
     };
@@ -166,7 +171,8 @@ fn sieve_all(out: &mut Out, rng: &mut StdRng, case: &str, s: &mut Sieve, r1: &[u
                 let mut cnt = 0;
                 for (j, &i) in idxs.iter().enumerate() {
                     let pos = (b * BLOCK_SIZE) as u64 + i as u64;
-                    let hit = vl.iter().any(|&(p, a, c)| pos >= p && (pos % p == a || pos % p == c));
+                    let later = s.fbase.len() <= 65536; // second or later hit only matters for the multi-hit scenario
+                    let hit = vl.iter().any(|&(p, a, c)| (!later || pos >= p) && (pos % p == a || pos % p == c));
                     if hit {
                         pick.push(j);
                         cnt += 1;
@@ -335,6 +341,24 @@ pub fn run(args: &Args) -> i32 {
             let case = format!("fb12000/{}/vlarge", ci);
             out.ev(json!({"op": "fb", "case": case, "primes": fb.primes, "size": 12000, "bound": fb.bound(), "check": "sample"}));
             let (r1, r2) = make_roots(&mut rng, &fb, if ci == 1 { Roots::Real } else { Roots::Random });
+            let offset = -((nblocks * BLOCK_SIZE) as i64) / 2;
+            if let Some(mut s) = new_sieve(&mut out, &case, &fb, &r1, &r2, nblocks, offset, None, "real") {
+                sieve_all(&mut out, &mut rng, &case, &mut s, &r1, &r2,
+                          &Plan { thr: 24, root: None, max_rep: 6, focus: None, vlarge_focus: true });
+            }
+        }
+    }
+    // 5. a factor base with more than 2^16 primes: the very-large-prime tables keep only 16 bits of a prime index
+    //    and `smooths` has to walk the aliases; the reports checked are chosen (from the root tables) among those
+    //    where a prime of index >= 65536 divides.
+    {
+        let n = rand_bits(&mut rng, 200) | Uint::ONE;
+        let fb = FBase::new(Int::cast_from(n), 70000);
+        if fb.len() > 66000 {
+            let nblocks = 4usize;
+            let case = "fb70000/1/alias".to_string();
+            out.ev(json!({"op": "fb", "case": case, "primes": fb.primes, "size": 70000, "bound": fb.bound(), "check": "top"}));
+            let (r1, r2) = make_roots(&mut rng, &fb, Roots::Real);
             let offset = -((nblocks * BLOCK_SIZE) as i64) / 2;
             if let Some(mut s) = new_sieve(&mut out, &case, &fb, &r1, &r2, nblocks, offset, None, "real") {
                 sieve_all(&mut out, &mut rng, &case, &mut s, &r1, &r2,
